@@ -6,7 +6,7 @@ import ast
 from ..blockinterp import Compiled
 from ..env import Env, compile_fn, execute
 from ..kernel import Chooser, DfsStats, dfs_answers, shard_map
-from ..progs import all_target_programs, chain_sources, expr_programs, skeleton_sources, source_shapes, DEADCODE
+from ..progs import all_target_programs, boolchain_programs, chain_sources, expr_programs, skeleton_sources, source_shapes, DEADCODE
 from ..runner import Acc
 from ..sweep import exc_fingerprint, rotate
 
@@ -22,7 +22,9 @@ def programs(tier: str):
         out += list(expr_programs(1, 3))
         out += list(expr_programs(2, 3))
         out += list(chain_sources(3, "marked"))
+        out += list(boolchain_programs(5, 4))
     else:
+        out += list(boolchain_programs(6, 5))
         out += list(chain_sources(3, "marked")) + list(chain_sources(3, "bare")) + list(chain_sources(4, "marked"))
         out += list(skeleton_sources(3, "marked", loop_else_upto=2))
         out += list(skeleton_sources(3, "bare", loop_else_upto=2))
@@ -189,7 +191,7 @@ def _work(args):
     chunk, horizon = args
     acc = Acc()
     for label, src in chunk:
-        check_program(label, src, acc, horizon, raising=not label.startswith("S"))
+        check_program(label, src, acc, horizon, raising=not (label.startswith("S") or label.startswith("CH") or label.startswith("XC")))
     return acc
 
 
